@@ -900,22 +900,31 @@ impl<CostType: PostCostTypeEx, GetApChangeFn: Fn(StatementIdx) -> usize>
 }
 
 impl<'a, GetApChangeFn: Fn(StatementIdx) -> usize> PostcostContext<'a, GetApChangeFn> {
+    /// The pre-cost token usages of the statement. A statement the pre-cost computation did not
+    /// reach has no variables - it uses no tokens.
+    fn precost_token_usages(&self, idx: StatementIdx, token_type: CostTokenType) -> usize {
+        self.precost_gas_info
+            .variable_values
+            .get(&(idx, token_type))
+            .copied()
+            .unwrap_or_default()
+            .into_or_panic()
+    }
+
     /// Computes the cost of the withdraw_gas libfunc.
     fn compute_withdraw_gas_cost(
         &self,
         idx: StatementIdx,
         info: &WithdrawGasBranchInfo,
     ) -> ConstCost {
-        info.const_cost(|token_type| {
-            self.precost_gas_info.variable_values[&(idx, token_type)].into_or_panic()
-        })
+        info.const_cost(|token_type| self.precost_token_usages(idx, token_type))
     }
 
     /// Computes the cost of the redeposit_gas libfunc.
     fn compute_redeposit_gas_cost(&self, idx: StatementIdx) -> ConstCost {
         ConstCost::steps(
             BuiltinCostsType::cost_computation_steps(false, |token_type| {
-                self.precost_gas_info.variable_values[&(idx, token_type)].into_or_panic()
+                self.precost_token_usages(idx, token_type)
             })
             .into_or_panic(),
         )
